@@ -12,13 +12,17 @@ VARIABLES mode, n
 Pfx(k) == RE.prefix[k]
 A == LAtom("", "a")
 AtomsL == {LAtom("", "a"), LAtom("", "b1"), LAtom("", "go-to"), LAtom(Pfx("VariableIndependent"), "x"), LAtom(Pfx("VariableDependent"), "y1"),
+           LAtom("", "名２"), LAtom("", "x²"), LAtom(Pfx("Operator"), "n٣"), LAtom(Pfx("VariableQuery"), "½"), LAtom("", "é"), LAtom("", Rep("ab", 20)),
+           LAtom(Pfx("Interval"), "12345678901234567890123"), LAtom(Pfx("VariableIndependent"), "1"),
            LAtom(Pfx("VariableQuery"), "z"), LAtom(Pfx("Interval"), "7"), LAtom(Pfx("Operator"), "op"), LAtom(Pfx("Placeholder"), "")}
 Pool2 == {A, LAtom(Pfx("VariableIndependent"), "x")}
 ListsUpTo(P, m) == UNION {[1..j -> P] : j \in 1..m}
 Conns == {RE.conn[k] : k \in ConnKinds}
 Cops == {RE.cop[k] : k \in CopKinds}
 SetBrs == {<<RE.se_l, RE.se_r>>, <<RE.si_l, RE.si_r>>}
-L1 == {LCompound(c, ts) : c \in Conns, ts \in ListsUpTo(Pool2, IF TIER = "thorough" THEN 4 ELSE 3)}
+Wide == {LCompound(c, [i \in 1..m |-> LAtom("", "w" \o ToString(i))]) : c \in Conns, m \in {5, 9, 17}}
+        \cup {LSet(b[1], b[2], [i \in 1..m |-> LAtom("", "名２")]) : b \in SetBrs, m \in {5, 12}}
+L1 == {LCompound(c, ts) : c \in Conns, ts \in ListsUpTo(Pool2, IF TIER = "thorough" THEN 4 ELSE 3)} \cup Wide
       \cup {LSet(b[1], b[2], ts) : b \in SetBrs, ts \in ListsUpTo(Pool2, 3)}
       \cup {LStatement(c, s, p) : c \in Cops, s \in Pool2, p \in Pool2}
 Kids2 == {LCompound(RE.conn["Product"], <<A, LAtom("", "b1")>>), LSet(RE.se_l, RE.se_r, <<A>>), LStatement(RE.cop["Inheritance"], A, LAtom("", "b1")),
@@ -33,8 +37,9 @@ Ends == {A, LAtom("", "b1"), LAtom(Pfx("Placeholder"), ""), LAtom(Pfx("Interval"
          LStatement(RE.cop["Similarity"], A, LAtom(Pfx("VariableQuery"), "z")), LCompound(RE.conn["Negation"], <<A>>)}
 StampForms == {"", RE.stamp_l \o RE.stamp["Past"] \o RE.stamp_r, RE.stamp_l \o RE.stamp["Present"] \o RE.stamp_r,
                RE.stamp_l \o RE.stamp["Future"] \o RE.stamp_r, RE.stamp_l \o RE.stamp["Fixed"] \o "-1" \o RE.stamp_r,
-               RE.stamp_l \o RE.stamp["Fixed"] \o "+137" \o RE.stamp_r, RE.stamp_l \o RE.stamp["Fixed"] \o "0" \o RE.stamp_r}
-TruthsL == {<<>>, <<"1">>, <<"0.5", "0.9">>, <<".5", "1.", "0.25">>}
+               RE.stamp_l \o RE.stamp["Fixed"] \o "+137" \o RE.stamp_r, RE.stamp_l \o RE.stamp["Fixed"] \o "0" \o RE.stamp_r,
+               RE.stamp_l \o RE.stamp["Fixed"] \o "-123456789012345678901" \o RE.stamp_r}
+TruthsL == {<<>>, <<"1">>, <<"0.5", "0.9">>, <<".5", "1.", "0.25">>, <<"0.0000001", "0.123456789012345678", "1", "0">>}
 BudgetsL == {<<>>, <<"0.5">>, <<"1", "0">>, <<"0.5", "0.75", "0.4">>, <<"1", "1", "1", "1">>}
 SentencesL == {[term |-> t, punctuation |-> RE.punct[p], stamp |-> st, truth |-> tr] : t \in Ends, p \in PunctKinds, st \in StampForms, tr \in TruthsL}
 Vals == {[kind |-> "term", v |-> t] : t \in TermsL}
